@@ -598,7 +598,14 @@ def check_cases(ctx, cases):
                     if s.split(":")[0] == want:
                         return s
                 return None
+            seen = ctx.extra.setdefault("_shrunk", {})
+            cls = sig.split(":")[0]
+            if seen.get(cls, 0) >= 2:      # shrink the first cases of a failure class only (time)
+                ctx.fail(seen.get(sig, sig), what, {"case": case})
+                continue
+            seen[cls] = seen.get(cls, 0) + 1
             small, ssig = shrink(case, failing)
+            seen[sig] = ssig or sig
             ctx.fail(ssig or sig, what, {"case": small})
     if not ctx.model_ok:
         return
@@ -652,6 +659,11 @@ def run(ctx):
         check_cases(ctx, batch)
     c = cases[5]
     ctx.sample({"document": documents(c)[0], "events": c["events"], "results": run_real(c)["results"]})
+    _cleanup(ctx)
+
+
+def _cleanup(ctx):
+    ctx.extra.pop("_shrunk", None)
 
 
 def replay(ctx, data):
